@@ -37,7 +37,8 @@ CHECKS = {
             "fault as __cause__; no descendant of a failed node and no node after the observed failure starts; no other exception escapes.", TB_SCHED),
     "C17": ("model_checking", "3.4", "bounded symbolic execution (z3) of the real scheduler in both flavours",
             "Sync and async flavour explored over the same shapes/resources/schedules: same entered set and same returned terms as the plain-Python reference; "
-            "with only async-thread nodes in flight the scheduler waits in the awaitable wait.", TB_SCHED),
+            "with only async-thread nodes in flight the scheduler waits in the awaitable wait; 2 (thorough: 3) concurrent awaits of one AsyncDAG with solver-chosen resumption order and completions each get the "
+            "term for their own arguments (with and without a setup node / prior setup()).", TB_SCHED),
     "C07": ("model_checking", "6 (C07)", "bounded symbolic execution (z3) of the real graph construction with symbolic priorities vs. the documented formula",
             "All DAG shapes with N<=4 (N=5 thorough) x all labelings (iteration-order proxy) with unbounded symbolic priorities: z3 proves table[i] = p_i + sum over distinct descendants after construction, "
             "after config_from_dict (all / one node), and for every node of an executor graph (target/exclude/root selection, debug leaf with RUN_DEBUG_NODES on); with max_concurrency=1 and pairwise distinct "
@@ -71,6 +72,10 @@ CHECKS = {
     "C18": ("model_checking", "6 (C18)", "bounded symbolic exploration of (caching run, restart) pairs with real pickling of symbolic values",
             "All shapes with N=3 x caching selection {whole, target=[i], cache_deps_of=[i]} x restart {same selection, whole} x {same instance, pristine deep copy} x optional setup node, and two rounds on the same file (N=2; N=3 thorough): "
             "file contents are exactly the documented ids, no cached node is executed, returned terms are the cached ones / computed from them, cache_deps_of restart executes that node only.", TB_REAL),
+    "C16": ("model_checking", "6 (C16)", "solver-chosen interleavings of real threads (cooperative gates) over the real code, results as z3 terms",
+            "Two (thorough: three) real threads call one DAG instance with their own symbolic arguments; every alternation of the threads at node-entry granularity is explored: each gets the term for its own arguments, the instance "
+            "is unchanged. A build paused at every statement of its describing function x the other thread's operation {call a DAG, call a decorated function, build a DAG}: outcomes equal the no-build-in-progress outcomes, node "
+            "tables equal the sequentially built ones, builds serialise.", TB_REAL + "; threads interleave only at node entries / the chosen pause point (finer interleavings are outside the claim)"),
 }
 
 NA_REASON = "check not built yet (work in progress)"
